@@ -318,6 +318,16 @@ def run():
         rep.add(o)
 
     rep.extra["closures_composed"] = {"spawn_in_visit_dir": spawn_checked[0], "root_spawn": root_seen[0]}
+    # overlapping or repeated roots do not duplicate files: same-path collapsing is unconditional (shared with C03)
+    try:
+        from obligations import dedup_wiring
+        oblig.install_battery(rep, ctx, ["c03_battery"])
+        dedup_wiring.add(rep, prog)
+    except Inconclusive as e:
+        from common import Obligation
+        o = Obligation("same-path collapsing", "E2 mirsym/z3")
+        o.verdict, o.detail = "inconclusive", str(e)
+        rep.add(o)
     # the visited set (cycle / overlap protection) is keyed by Path::hash128: distinct paths must get distinct keys
     try:
         from obligations import path_kernels
